@@ -205,7 +205,7 @@ fn scaling(ctx: &Ctx, st: &mut Stats) {
     let steps = if ctx.tier == Tier::Quick { 2 } else { 3 };
     for fi in (ctx.shard..gen::FAMILIES.len()).step_by(ctx.nshards) {
         let name = gen::FAMILIES[fi].0;
-        let mut prev: Option<(usize, [f64; 5])> = None;
+        let mut prev: Option<(usize, [f64; 6])> = None;
         let mut n = base_n;
         for _ in 0..steps {
             let s = gen::family(fi, n);
@@ -214,7 +214,7 @@ fn scaling(ctx: &Ctx, st: &mut Stats) {
             }
             let base = alloc::window_start();
             let ex = exec(&s);
-            let (peak, _) = alloc::window_end(base);
+            let (peak, total_alloc) = alloc::window_end(base);
             st.observe_exec(&ex);
             st.src(Src::Family);
             st.cases += 1;
@@ -228,6 +228,7 @@ fn scaling(ctx: &Ctx, st: &mut Stats) {
                         r.tokens as f64,
                         r.errors as f64,
                         peak as f64,
+                        total_alloc as f64,
                     ];
                     if res.errors.iter().any(|e| e.error_kind().is_internal()) {
                         st.violation(
@@ -236,9 +237,15 @@ fn scaling(ctx: &Ctx, st: &mut Stats) {
                         );
                     }
                     if let Some((pn, pv)) = prev {
-                        let names = ["main_iters", "cursor_steps", "tokens", "errors", "peak_heap"];
-                        for k in 0..5 {
+                        let names = ["main_iters", "cursor_steps", "tokens", "errors", "peak_heap", "total_alloc_bytes"];
+                        for k in 0..6 {
                             if !run::HOOKS && k < 4 {
+                                continue;
+                            }
+                            // bytes requested in total: the debug-only loop detector clones the mode
+                            // stack every iteration (quadratic for deep nesting, by design), so this
+                            // counter is judged in the optimized build only
+                            if k == 5 && run::DEBUG_BUILD {
                                 continue;
                             }
                             // +64 keeps tiny counters from producing meaningless ratios
@@ -974,6 +981,8 @@ pub fn c15(ctx: &Ctx, st: &mut Stats) {
                 "datalines;\n1 2\n;", "cards4;\na;b\n;;;;", "* c;", "*c", "= 1", " = 1;", "%let x=1;", "%lbl: x;", "%m", "%m(a)", "x", ";",
                 "%end;", "%mend;", "%else x;", "%then y;", ")", "\"", "'", "/*", "%to 3;", "%by 1;", "&a", "1", "\n", " ", "lines;", "%do;",
                 "%put a;", "%if 1 %then x;", "%macro m; * c; %mend;", "%str(a)", "%eval(1)", "%*c;", "**", "cards", "%until(1);",
+                "* a %x b;", "* a\n%let q=1; y;", "%m x", "%m /*c*/ x;", "%m(a b)", "%lbl: * c;", "x %lbl:", "%if = 1 %then x;", "%eval( eq )", "%do i = %to 2;",
+                "%mend; * c;", "%end; * c;", "%mend;\n* a %x;", "%let a=b; * c;",
             ]))
             .to_string(),
             2..=4 => grammar::gen_program(&mut r, ctx.tier.gcfg()).s,
@@ -987,6 +996,16 @@ pub fn c15(ctx: &Ctx, st: &mut Stats) {
         let ab = format!("{a}{b}");
         let ex_ab = exec(&ab);
         st.observe_exec(&ex_ab);
+        if ex_b.result().is_some() && ex_ab.result().is_none() {
+            // A and B lex on their own but A followed by B does not return: state crossed the boundary
+            let cls = match &ex_ab.outcome {
+                Outcome::Panic(p) => format!("panic|{}", p.frames.first().cloned().unwrap_or_default()),
+                Outcome::Budget(b) => format!("budget|{}", b.counter),
+                _ => "refused".into(),
+            };
+            st.violation(&Finding::new("C15.outcome", &cls, "A and B lex separately, A followed by B does not return".into()), &[&a, &b]);
+            continue;
+        }
         let (Some(rb), Some(rab)) = (ex_b.result(), ex_ab.result()) else {
             st.count("pairs_skipped_panic_or_budget", 1);
             continue;
